@@ -50,7 +50,8 @@ def sampleNested : Tmpl :=
             (.text ['}']))))
         (.call (.call 2 []) [] (.text ['T', 'O', 'P'])))
 
-/-- quirk: `caller.body()` inside the argument list of a `<%call expr>`:
+/-- `caller.body()` inside the argument list of a `<%call expr>` whose content makes a call with content of its own
+    (the witness of the repaired defect F-C05-1: since /repo 555117c the inner `<%call>` puts the pending caller back):
     `<%def name="d1(v1)">[${v1}${caller.body()}]</%def>` `<%def name="d2()">(${caller.body()})</%def>`
     `<%def name="d3()">{<%call expr="d1(caller.body())">F</%call>}</%def>`
     `<%call expr="d3()">O<%call expr="d2()">B</%call></%call>` -/
@@ -60,10 +61,22 @@ def quirkCallExpr : Tmpl :=
   (.seq (.def_ 3 [] noFlags (.seq (.text ['{']) (.seq (.call (.call 1 [.callerCall 0 []]) [] (.text ['F'])) (.text ['}']))))
         (.call (.call 3 []) [] (.seq (.text ['O']) (.call (.call 2 []) [] (.text ['B']))))))
 
-/-- quirk: a def nested in a `<%call>` whose enclosing def mentions `caller`:
+/-- what remains of F-C05-1: while the argument list of a `<%call expr>` is evaluated the caller is *pending*, and a
+    def called by name in the meantime takes it for its own:
+    `<%def name="d1(v1)">[${v1}${caller.body()}]</%def>` `<%def name="d2()">(${caller.body()})</%def>`
+    `<%def name="d3()">{<%call expr="d1(caller.body())">F</%call>}</%def>` `<%call expr="d3()">O${d2()}</%call>`
+    – `d2()` is called without content, yet prints `(F)` -/
+def quirkLeak : Tmpl :=
+  .seq (.def_ 1 [1] noFlags (.seq (.text ['[']) (.seq (.expr (.var 1) []) (.seq (.expr (.callerCall 0 []) []) (.text [']'])))))
+  (.seq (.def_ 2 [] noFlags (.seq (.text ['(']) (.seq (.expr (.callerCall 0 []) []) (.text [')']))))
+  (.seq (.def_ 3 [] noFlags (.seq (.text ['{']) (.seq (.call (.call 1 [.callerCall 0 []]) [] (.text ['F'])) (.text ['}']))))
+        (.call (.call 3 []) [] (.seq (.text ['O']) (.expr (.call 2 []) [])))))
+
+/-- a def written inside a `<%call>` whose enclosing def mentions `caller` (the witness of the repaired defect
+    F-C05-3: since /repo 0522f73 such a def takes its *own* caller off the call stack):
     `<%def name="d1()">[${caller.d5()}]</%def>`
     `<%def name="d2()">{${caller.body()}|<%call expr="d1()"><%def name="d5()">i${caller.body()}</%def>B</%call>}</%def>`
-    `<%call expr="d2()">T</%call>` -/
+    `<%call expr="d2()">T</%call>` – `d5` is called without content: no caller (exception 2) -/
 def quirkNested : Tmpl :=
   .seq (.def_ 1 [] noFlags (.seq (.text ['[']) (.seq (.expr (.callerCall 5 []) []) (.text [']']))))
   (.seq (.def_ 2 [] noFlags (.seq (.text ['{']) (.seq (.expr (.callerCall 0 []) []) (.seq (.text ['|'])
